@@ -127,7 +127,7 @@ func playScript(t failer, c scriptCase) (labels []string, inconclusive string) {
 		}
 		return strings.Join(ds, " | ")
 	}
-	for _, tg := range []string{"ntp", "scion-svc", "scion-eh", "disp", "csptp-ev", "csptp-gen", "ntske", "ntske-raw"} {
+	for _, tg := range []string{"ntp", "scion-svc", "scion-eh", "disp", "csptp-ev", "csptp-gen", "ntske", "ntske-raw", "ntske-scion"} {
 		if !touched[tg] {
 			continue
 		}
@@ -177,7 +177,7 @@ func playScript(t failer, c scriptCase) (labels []string, inconclusive string) {
 	return labels, ""
 }
 
-var recSrv = ev.New("c08/listeners", "rapid: scripts of 1..5 datagrams / byte streams sent to the real listeners hosted in a child process (IP NTP/NTS listener, SCION listener on service and end-host port, SCION dispatcher, NTS-KE TLS server, CSPTP listener; with and without USE_MOCK_KEYS): raw bytes at boundary lengths, NTS requests sealed under the child's current key with structure-aware edits (extension type/length fields in {0,1,2,3,4,exact+-1,0xffff}, duplicated/dropped fields, cookie TLV length lies, valid key id + garbage, nonce/ciphertext lengths 0..64, truncation), SCION packets built with slayers then patched (all address type/length nibbles, path types, HdrLen/PayloadLen/NextHdr/UDP length lies, one-hop/3-segment paths, hop-by-hop and end-to-end options incl. authenticators with data lengths 0..40 and option 253 with crafted control messages, SCMP types), NTS-KE record streams with lying lengths and truncation, raw TCP garbage, CSPTP messages with length lies. Oracle: the child stays alive and the next well-formed request on the same socket pair is answered (CSPTP: processed); a lost sentinel counts as a hang only if it reproduces twice on fresh children while a fresh child without the script answers. One evaluation = one script. Non-trivial: script with a datagram that is well-formed up to the mutated layer (built from a valid packet); distinct by script hash")
+var recSrv = ev.New("c08/listeners", "rapid: scripts of 1..5 datagrams / byte streams sent to the real listeners hosted in a child process (IP NTP/NTS listener, SCION listener on service and end-host port, SCION dispatcher, NTS-KE TLS server, NTS-KE server over SCION (raw SCION datagrams to its QUIC port), CSPTP listener; with and without USE_MOCK_KEYS): raw bytes at boundary lengths, NTS requests sealed under the child's current key with structure-aware edits (extension type/length fields in {0,1,2,3,4,exact+-1,0xffff}, duplicated/dropped fields, cookie TLV length lies, valid key id + garbage, nonce/ciphertext lengths 0..64, truncation), SCION packets built with slayers then patched (all address type/length nibbles, path types, HdrLen/PayloadLen/NextHdr/UDP length lies, one-hop/3-segment paths, hop-by-hop and end-to-end options incl. authenticators with data lengths 0..40 and option 253 with crafted control messages, SCMP types), NTS-KE record streams with lying lengths and truncation, raw TCP garbage, CSPTP messages with length lies. Oracle: the child stays alive and the next well-formed request on the same socket pair is answered (CSPTP: processed); a lost sentinel counts as a hang only if it reproduces twice on fresh children while a fresh child without the script answers. One evaluation = one script. Non-trivial: script with a datagram that is well-formed up to the mutated layer (built from a valid packet); distinct by script hash")
 
 func TestPropListenerScripts(t *testing.T) {
 	defer killVictims()
@@ -191,7 +191,7 @@ func TestPropListenerScripts(t *testing.T) {
 		structured := false
 		for i := 0; i < n; i++ {
 			var it item
-			switch rapid.SampledFrom([]string{"ntp", "ntp", "scion-svc", "scion-svc", "scion-eh", "disp", "csptp", "ntske"}).Draw(t, "target") {
+			switch rapid.SampledFrom([]string{"ntp", "ntp", "scion-svc", "scion-svc", "scion-eh", "disp", "csptp", "ntske", "ntske-scion"}).Draw(t, "target") {
 			case "ntp":
 				it = genNTPItem(t, v)
 			case "scion-svc":
@@ -200,6 +200,8 @@ func TestPropListenerScripts(t *testing.T) {
 				it = genSCIONItem(t, v, r, "scion-eh")
 			case "disp":
 				it = genSCIONItem(t, v, r, "disp")
+			case "ntske-scion":
+				it = genSCIONItem(t, v, r, "ntske-scion")
 			case "csptp":
 				it = genCSPTPItem(t, rapid.SampledFrom([]string{"csptp-ev", "csptp-gen"}).Draw(t, "cport"))
 			case "ntske":
